@@ -147,7 +147,9 @@ RULE = ('type-directed generator (harness/c01_gen.py): 0-4 typed input values (b
         '(thorough) instructions built stack-type-directedly over the whole fragment, incl. DIP/DIG/DUG/DUP/DROP n at '
         'depths 0..len, nested control flow, counted LOOPs, LOOP_LEFT, ITER/MAP bodies with conversion code; half of '
         'the programs allow type-changing MAP bodies (guarded by IF_CONS so the list is non-empty); a stream in '
-        'the known-finding class; a systematic per-instruction sweep (every overload of the arithmetic/logic/compare '
+        'the known-finding class; REPL sessions of 2-5 cells on one Interpreter where ~45% of the cells fail (FAILWITH or '
+        'run-time error inside DIP n / nested DIP / ITER / MAP / LOOP bodies) and every cell observes outcome, session stack '
+        'and `protected`; a systematic per-instruction sweep (every overload of the arithmetic/logic/compare '
         'instructions on boundary operands incl. zero divisors, COMPARE on every comparable shape with near-equal operands, '
         'DROP/DUP/DIG/DUG n at every depth with and without a protected prefix); contract-shaped programs run through Interpreter.run_code; the corpus. '
         'non-trivial = at least 3 instructions of at least 2 kinds; distinct = distinct program text + inputs')
@@ -210,6 +212,89 @@ def collect_contracts(ctx: lib.Ctx):
     return cases, metas, coq_cases
 
 
+SESSION_TY = 'env * (list instr * list (ty * data))'
+SESSION_PRELUDE = f'''
+Definition s_env (c : {SESSION_TY}) := fst c.
+Definition s_cells (c : {SESSION_TY}) := fst (snd c).
+Definition s_inputs (c : {SESSION_TY}) := snd (snd c).
+(* every cell is well-typed for the stack it meets (types follow the reference: a failing cell changes nothing) *)
+Fixpoint session_ok (e : env) (cells : list instr) (st : sty) (s : list value) : bool :=
+  match cells with
+  | [] => true
+  | c :: r => match typecheck c st with
+              | None => false
+              | Some R => match ref_eval e {FUEL} c s, R with
+                          | Done s', Typed st' => session_ok e r st' s'
+                          | Done _, Failing => false
+                          | _, _ => session_ok e r st s
+                          end
+              end
+  end.
+Definition session_valid (c : {SESSION_TY}) : bool :=
+  env_okb (s_env c) && session_ok (s_env c) (s_cells c) (map fst (s_inputs c)) (map (fun p => value_of_data (snd p)) (s_inputs c)).
+Definition py_sess (c : {SESSION_TY}) := py_run_session (s_env c) {FUEL} (s_cells c) (s_inputs c).
+Definition ref_sess (c : {SESSION_TY}) := ref_session (s_env c) {FUEL} (s_cells c) (map (fun p => value_of_data (snd p)) (s_inputs c)).
+Definition erase_sess (l : list (obs * (list pval * nat))) : list (outcome * list value) :=
+  map (fun x => (erase_obs (fst x), map erase (fst (snd x)))) l.
+Definition ref_sess_eqb (a b : list (outcome * list value)) : bool :=
+  list_eqb (fun x y => outcome_eqb (fst x) (fst y) && list_eqb value_eqb (snd x) (snd y)) a b.
+'''
+
+
+def sessions(ctx: lib.Ctx, prop: str):
+    """REPL sessions: (A) py_session, (B) ref_session, per cell outcome + the session stack and `protected` afterwards."""
+    cases, metas = [], []
+    for _ in range(ctx.n(150, 2500)):
+        c = G.gen_session(ctx.rng, ctx.rng.choice([3, 6, ctx.n(10, 30)]))
+        c['stream'] = 'session'
+        old = signal.signal(signal.SIGALRM, _alarm)
+        signal.alarm(30)
+        try:
+            o = G.run_session(c)
+        except Timeout:
+            o = [({'kind': 'error', 'why': 'timeout'}, [], 0)]
+        finally:
+            signal.alarm(0)
+            signal.signal(signal.SIGALRM, old)
+        cases.append(c)
+        metas.append(o)
+        ctx.case((G.session_text(c),), nontrivial=True, kind=None, sample=None)
+        ctx.dist['stream:session'] += 1
+        ctx.dist['session_cells'] += len(c['cells'])
+        ctx.dist['session_failing_cells'] += sum(1 for k in c['kinds'] if k == 'fail')
+    pre = PRELUDE + SESSION_PRELUDE
+    coq = [G.session_coq(c) for c in cases]
+    invalid = set(ctx.coq_mismatches('sess_ok', IMPORTS, 'session_valid', 'Bool.eqb', SESSION_TY, 'bool', [(c, 'true') for c in coq], prelude=pre))
+    ctx.extra['sessions_discarded_by_typing'] = len(invalid)
+    keep = [i for i in range(len(cases)) if i not in invalid]
+    obs_l = [G.session_obs_coq(metas[i]) for i in keep]
+    fn = 'fun c => (py_sess c, ref_sess c)'
+    eqb = 'fun a b => session_obs_eqb (fst a) (fst b) && ref_sess_eqb (snd a) (snd b)'
+    out_ty = 'list (obs * (list pval * nat)) * list (outcome * list value)'
+    both = ctx.coq_mismatches('sess', IMPORTS, fn, eqb, SESSION_TY, out_ty,
+                              [(coq[i], f'({o}, erase_sess {o})') for i, o in zip(keep, obs_l)], prelude=pre)
+    bad_a, bad_b = [], []
+    if both:
+        sub = [keep[j] for j in both]
+        ba = ctx.coq_mismatches('sess_py', IMPORTS, 'py_sess', 'session_obs_eqb', SESSION_TY, 'list (obs * (list pval * nat))',
+                                [(coq[i], G.session_obs_coq(metas[i])) for i in sub], prelude=pre)
+        bb = ctx.coq_mismatches('sess_ref', IMPORTS, 'ref_sess', 'ref_sess_eqb', SESSION_TY, 'list (outcome * list value)',
+                                [(coq[i], f'(erase_sess {G.session_obs_coq(metas[i])})') for i in sub], prelude=pre)
+        bad_a, bad_b = [sub[j] for j in ba], [sub[j] for j in bb]
+    ctx.extra['session_disagreements_model'] = len(bad_a)
+    ctx.extra['session_disagreements_reference'] = len(bad_b)
+    return cases, metas, coq, bad_a, bad_b, pre
+
+
+def session_doc(case, obs, extra=None):
+    doc = {'session': G.session_text(case), 'cells': [G.code_mich(c) for c in case['cells']], 'cell_kinds': case['kinds'],
+           'stream': 'session', 'environment': case.get('env'), 'repro': G.session_repro(case),
+           'implementation': [{'outcome': o['kind'], 'why': o.get('why'), 'stack_after': after, 'protected_after': p} for o, after, p in obs]}
+    if extra:
+        doc.update(extra)
+    return doc
+
+
 def contract_doc(case, obs, extra=None):
     doc = {'script': case.get('script'), 'parameter': G.data_mich(case['contract']['pv']), 'storage': G.data_mich(case['contract']['sv']),
            'stream': 'contract', 'repro': G.contract_repro(case), 'implementation': {k: v for k, v in obs.items() if k != 'value'},
@@ -266,6 +351,24 @@ def run(ctx: lib.Ctx) -> None:
         ctx.violation('run_code result differs from the Michelson reference semantics on a well-typed contract',
                       contract_doc(ccases[i], cmetas[i], {'reference_semantics': ref}), found=True)
 
+    # REPL sessions
+    scases, smetas, scoq, sbad_a, sbad_b, spre = sessions(ctx, PROP)
+    for i in sbad_b:
+        if reported >= 3:
+            break
+        reported += 1
+        ref = ctx.coq_eval(IMPORTS, f'ref_sess {scoq[i]}', prelude=spre)
+        ctx.violation('a cell of a REPL session (same Interpreter object) differs from the reference semantics run from the '
+                      'expected session stack, or a failed cell did not leave the session stack untouched',
+                      session_doc(scases[i], smetas[i], {'reference_semantics': ref}), found=True)
+
+    if reported == 0 and sbad_a:
+        i = sbad_a[0]
+        model = ctx.coq_eval(IMPORTS, f'py_sess {scoq[i]}', prelude=spre)
+        ctx.violation('implementation no longer corresponds to the model the theorems are about',
+                      session_doc(scases[i], smetas[i], {'model': model, 'correspondence': 'C01/Interpreter.execute sessions vs PySem.py_session'}),
+                      found=False)
+        reported += 1
     if reported == 0 and (bad_a or bad_m or cbad_a):
         if bad_a or bad_m:
             i = (bad_a or bad_m)[0]
